@@ -237,8 +237,27 @@ def b_callable(I, args, kw, node):
     return isinstance(args[0], (SClosure,)) or callable(args[0])
 
 
+def b_open(I, args, kw, node):
+    """open(path, mode): an abstract file.  Every write(data) is recorded in the call trace as ("open.write", {path, mode, data}) so that a contract can say
+    exactly which bytes reach which file; reading is not modelled.  Nothing touches the file system."""
+    from .values import SymFn
+    path = args[0] if args else kw.get("file")
+    mode = args[1] if len(args) > 1 else kw.get("mode", "r")
+    if not isinstance(mode, str) or not ("w" in mode or "a" in mode or "x" in mode):
+        raise SymError("open() for reading is not in the subset")
+    f = SObj(None, {}, I.ctx.fresh_name("file"))
+
+    def write(I2, data):
+        I2.trace.append(("open.write", {"path": path, "mode": mode, "data": data}))
+        return None
+    f.f.update(write=SymFn(write, "write"), close=SymFn(lambda I2: None, "close"), flush=SymFn(lambda I2: None, "flush"),
+               __enter__=SymFn(lambda I2: f, "__enter__"), __exit__=SymFn(lambda I2, *a: None, "__exit__"))
+    return f
+
+
 FUNCS = {}
 BUILTINS = {
+    open: b_open,
     len: b_len, min: b_min, max: b_max, abs: b_abs, sum: b_sum, isinstance: b_isinstance,
     divmod: b_divmod, ord: b_ord, chr: b_chr, any: b_any, all: b_all, sorted: b_sorted,
     hasattr: b_hasattr, getattr: b_getattr, setattr: b_setattr, repr: b_repr, round: b_round, id: b_id,
